@@ -28,6 +28,7 @@ SPEC = {
         "meta-bad": "C08_bad_declarations_dropped_alone",
     },
     "harness_timeout": 600,
+    "tie_codes": (),  # a dead / hung worker (code 3) IS a failing input here: the implementation crashes on it
     "rule": "SplitMix64-seeded generators: declaration blocks mixing valid/invalid longhands and shorthands of the modelled families, unknown / prefixed / non-print properties, custom properties, var() uses, !important, comments, case noise; custom-property graphs (chains, diamonds, self loops, 2/3-cycles, undefined with/without fallback, var() nested in functions) resolved directly and through the computed style of a probe element; metamorphic pairs over a per-property table of valid values; corpus/C08 first; non-trivial = more than one compound or a non-empty result; distinct by Coq term",
 }
 MANIFEST = {
